@@ -193,3 +193,42 @@ func (c *ServerConn) VSendToStream(ctx context.Context, b []byte) error {
 func (c *ServerConn) VRecvFromStream(ctx context.Context) ([]byte, error) {
 	return c.recvFromStream(ctx)
 }
+
+// VBareClientConn builds a ClientConn on the gRPC transport that has no
+// Go-Back-N connection on top of it, with the given receive and send stream
+// ids, so that its stream functions can be driven directly.
+func VBareClientConn(ctx context.Context, client hashmailrpc.HashMailClient,
+	receiveSID, sendSID [64]byte) *ClientConn {
+
+	ctxc, cancel := context.WithCancel(ctx)
+	mbInfo := &mailboxInfo{
+		recvSID: receiveSID[:],
+		sendSID: sendSID[:],
+	}
+	c := &ClientConn{
+		transport:   newGrpcTransport(mbInfo, client),
+		status:      ClientStatusNotConnected,
+		onNewStatus: func(ClientStatus) {},
+		quit:        make(chan struct{}),
+		cancel:      cancel,
+		log:         log,
+	}
+	c.connKit = &connKit{
+		ctx:        ctxc,
+		impl:       c,
+		receiveSID: receiveSID,
+		sendSID:    sendSID,
+	}
+
+	return c
+}
+
+// VSend calls the send function the ClientConn hands to Go-Back-N.
+func (c *ClientConn) VSend(ctx context.Context, b []byte) error {
+	return c.send(ctx, b)
+}
+
+// VRecv calls the receive function the ClientConn hands to Go-Back-N.
+func (c *ClientConn) VRecv(ctx context.Context) ([]byte, error) {
+	return c.recv(ctx)
+}
